@@ -61,6 +61,20 @@ def f5():
     return False, "accepted"
 
 
+def f6():
+    from architecture_simulator.simulation.toy_simulation import ToySimulation
+
+    s = ToySimulation()
+    s.load_program("INC\nDEC")
+    s.first_cycle_step()  # abandoned in the middle of the instruction
+    s.load_program("INC\nINC")
+    try:
+        s.step()
+    except Exception as e:
+        return True, repr(e)
+    return False, "step() on the freshly loaded program works"
+
+
 def k1():
     m = WriteBackMemorySystem(Memory(AddressingType.BYTE, 32, True, range(2**14, 2**32)), 0, 13, 1, RiscvPerformanceMetrics(), 0, "lru")
     try:
@@ -70,7 +84,7 @@ def k1():
     return False, None
 
 
-ALL = {"F1": f1, "F2": f2, "F3": f3, "F4": f4, "F5": f5, "K1": k1}
+ALL = {"F1": f1, "F2": f2, "F3": f3, "F4": f4, "F5": f5, "F6": f6, "K1": k1}
 
 if __name__ == "__main__":
     import sys
